@@ -1204,13 +1204,13 @@ theorem C16_event_handled_once (grow : Nat → Nat) (as : List QAct) :
     let q := qrun grow {} as
     let s := srun {} as
     s.flushed.flatten ++ s.buf = EvQueue.accepted as ∧
-    (C16Queue.WindowsBounded 0 as → EvQueue.accepted as = C16Queue.frames as) ∧
+    (C16Queue.WindowsBounded false 0 as → EvQueue.accepted as = C16Queue.frames as) ∧
     (∀ p ∈ q.handled, s.flushed[p.1]? = some p.2) ∧
     ((q.handled.map (·.1)) ++ (q.pending.map (·.1))).Perm (List.range q.started) := by
   intro q s
   have hsim := C16Queue.sim_run grow as {} {} C16Queue.sim_init
   have hinv := C16Queue.sinv_run as {} C16Queue.sinv_init
-  refine ⟨?_, C16Queue.accepted_all as 0, ?_, ?_⟩
+  refine ⟨?_, C16Queue.accepted_all as false 0, ?_, ?_⟩
   · have := C16Queue.flushed_accepted as {}
     simpa [EvQueue.accepted] using this
   · intro p hp
@@ -1221,6 +1221,33 @@ theorem C16_event_handled_once (grow : Nat → Nat) (as : List QAct) :
       rw [← hsim.pending, List.map_map]; rfl
     rw [h1, h2, hsim.started, ← List.map_append]
     exact hinv.once
+
+open EvQueue in
+/-- `C16_event_stop_quiesces`. For EVERY schedule with a `stop` (Session.Close) anywhere in it — while frames are
+buffered, while handlers of earlier flushes are pending, followed by any frames, timer expiries and handler runs —:
+(1) no handler goroutine is started after `stop` has returned (the flushes are exactly those before it);
+(2) every handler of a flush BEFORE the stop, whenever it runs (before or after the stop), still sees exactly the batch
+of its flush (`C16_event_batches_intact` holds for schedules with `stop`);
+the frames buffered at the stop or debounced after it are never delivered (the session is closing). -/
+theorem C16_event_stop_quiesces (grow : Nat → Nat) (pre post : List QAct) :
+    (qrun grow {} (pre ++ .stop :: post)).started = (qrun grow {} pre).started ∧
+    (srun {} (pre ++ .stop :: post)).flushed = (srun {} pre).flushed ∧
+    (qrun grow {} (pre ++ .stop :: post)).handled = (srun {} (pre ++ .stop :: post)).handled := by
+  have h1 := C16Queue.sim_run grow (pre ++ .stop :: post) {} {} C16Queue.sim_init
+  have h0 := C16Queue.sim_run grow pre {} {} C16Queue.sim_init
+  have hsplit : srun {} (pre ++ .stop :: post) = srun (sstep (srun {} pre) .stop) post := by
+    simp [srun, List.foldl_append]
+  have hs := C16Queue.stopped_run post (sstep (srun {} pre) .stop) rfl
+  refine ⟨?_, ?_, h1.handled⟩
+  · rw [h1.started, h0.started, hsplit]; exact hs.1
+  · rw [hsplit]; exact hs.2
+
+open EvQueue in
+/-- non-vacuity: DOWN 1, flush 0, stop while handler 0 is pending, DOWN 2 and a timer expiry after the stop, handler 0 runs:
+one handler, it saw DOWN 1; DOWN 2 is never flushed -/
+example :
+    let q := qrun goGrow {} [.debounce (.status .down 1), .fire, .stop, .debounce (.status .down 2), .fire, .run 0, .run 1]
+    q.started = 1 ∧ q.handled = [(0, [.status .down 1])] ∧ q.pending = [] := by decide
 
 open EvQueue in
 /-- non-vacuity + the schedule of the missed class: DOWN 1 arrives, flush 0; DOWN 2 arrives BEFORE handler 0 has run;
